@@ -234,7 +234,7 @@ func (f *Func) redefineInputs(opts ...Arg) (reflect.Type, error) {
 // NOTE(mitchellh): today, we just validate the outputs. In the future,
 // we'll chain converters to reach a desired output.
 func (f *Func) redefineOutputs(opts ...Arg) error {
-	builder, err := newArgBuilder(opts...)
+	builder, err := f.argBuilder(opts...)
 	if err != nil {
 		return err
 	}
